@@ -55,6 +55,12 @@ impl BinOp {
     pub fn as_str(self) -> (r: &'static str) ensures r@ == self.as_str_s(), !is_lc(r@), !is_blank(r@) { unimplemented!() }
 }
 
+/// C01: the text convert_binary_chain must emit for the operator token `child` of the operand `node`: `not in` for the `in` of a
+/// NotIn operand (the `not` token has no operator of its own), else the operator the token itself denotes
+pub open spec fn binary_op_text(node: &SyntaxNode, child: &SyntaxNode) -> Seq<char> {
+    if child.kind_s() == SyntaxKind::In && node.kind_s() == SyntaxKind::Binary && ast::Binary(node).op_s() == BinOp::NotIn { BinOp::NotIn.as_str_s() }
+    else { match BinOp::from_kind_s(child.kind_s()) { Some(op) => op.as_str_s(), None => Seq::empty() } }
+}
 /// `c` is a direct child of `p`
 pub open spec fn is_child_of(c: &SyntaxNode, p: &SyntaxNode) -> bool { exists|j: int| 0 <= j < p.children_s().len() && #[trigger] p.children_s()[j] == c }
 
